@@ -19,10 +19,14 @@ for pid in sorted(registry.PROPS):
         "level_note": m["note"],
         "technique": m["technique"],
     })
+import subprocess
+hooks = dict(ms.HOOKS)
+hooks["source_commits"] = subprocess.run("git -C /repo log --format=%h --grep '^verif-hooks' --reverse", shell=True, text=True,
+                                         capture_output=True).stdout.split()
 man = {
     "version": 1,
     "setup_cmd": ms.SETUP,
-    "hooks": ms.HOOKS,
+    "hooks": hooks,
     "engines": ms.ENGINES,
     "checks": checks,
     "notes": ms.NOTES,
